@@ -293,3 +293,29 @@ def name_relation(names1, names2):
     if a & b:
         return "overlap"
     return "disjoint"
+
+
+def spec_from_model(marr, kind="int", names=None):
+    """Model array -> polynomial spec (rows = union of monomials)."""
+    marr = M.wrap(marr)
+    if names is None:
+        names = sorted(M.all_names(marr), key=M.numsuffix) or ["q0"]
+    rows = set()
+    for elem in marr.ravel().tolist():
+        rows |= set(elem.rows(names))
+    rows = sorted(rows) or [tuple(0 for _ in names)]
+    conv = {"int": lambda c: int(c[0]), "float": lambda c: float(c[0]),
+            "complex": lambda c: complex(float(c[0]), float(c[1]))}[kind]
+    coefs = []
+    for row in rows:
+        def rec(sub, row=row):
+            if isinstance(sub, numpy.ndarray):
+                return [rec(x) for x in sub]
+            return jnum(conv(sub.rows(names).get(row, M.ZERO)))
+        if marr.ndim:
+            coefs.append([rec(x) for x in marr] if marr.ndim > 1 else
+                         [jnum(conv(x.rows(names).get(row, M.ZERO))) for x in marr])
+        else:
+            coefs.append(jnum(conv(marr[()].rows(names).get(row, M.ZERO))))
+    return {"k": "poly", "names": list(names), "exps": [list(r) for r in rows], "coefs": coefs,
+            "kind": kind, "shape": list(marr.shape), "via": "attrs"}
